@@ -44,3 +44,12 @@ reg("C38", "exploration", "runtime monitor: frame/unframe round-trip through rea
 reg("C18", "exploration", "runtime monitor: reference traversal by reflection (never ast.Walk) — expected Visit/Visit(nil) event stream with children in source order vs ast.Walk and ast.Inspect on parsed corpus/generated trees and on synthesised trees rooted at every node type",
     "The oracle enumerates child nodes independently of walk.go; parsed trees are compared event by event, synthesised trees by per-parent child multisets and nil protocol; every node type of package ast must be observed.",
     "Child = exported field holding an ast.Node (also inside StringLitEx/DomainTextLitEx/[]any parts); documented exceptions: shadow-entry FuncDecl exposes only Body, File.Name skipped without package clause. cl front-end trees are covered via C07's workload, not here.")
+reg("C19", "exploration", "runtime monitor: round-trip invariant parse(format(x)) shape-equal to parse(x) via an independent reflection comparator; corpus + harvested snippets + syntactic generator over all Go/XGo node kinds + re-spaced variants; formatter in crash-isolated workers",
+    "format.Source runs on every valid source; its output must parse and be shape-equal to the input tree (positions, comments, redundant parentheses, empty statements, numeric literal spelling and import order inside a declaration ignored).",
+    "Domain = sources the parser accepts without error; gofmt conventions inherited by the formatter (parenthesis stripping in headers, dropping empty statements, number normalisation) are not counted as tree changes.")
+reg("C20", "exploration", "runtime monitor: metamorphic invariant format(format(x)) == format(x) byte-for-byte on corpus, harvested, generated and re-spaced sources",
+    "Two real formatting passes per source; any byte difference is a violation, located by the innermost node kinds around the first difference.",
+    "Comment-injected sources are not part of this property's quantifier (they belong to C21).")
+reg("C21", "exploration", "runtime monitor: conservation invariant on comment texts (exactly once, same order) with uniquely numbered comments injected at random token boundaries; failing cases are shrunk to the minimal set of injected comments and named after the node kind that contains them",
+    "Unique comment ids make 'exactly once, in order' decidable from the scanner's comment token sequence of input and output.",
+    "Comment texts are normalised by right-trimming lines and dropping block-comment re-indentation; injection that makes the source invalid is discarded.")
